@@ -21,7 +21,7 @@ func vhSelectAB(db *DB) ([][2]int64, error) {
 	return got, err
 }
 
-//verif:bounds one table of 1..2 rows in a leaf; history read / commit / read / read / commit(schema change) / read; commits rewrite the leaf with fresh symbolic values and may change the row count; change counter and schema cookie symbolic under the commit contract
+//verif:bounds one table of 1..2 rows in a leaf; history read / commit / read / read / commit(schema change) / read / VACUUM to 1024-byte pages / read; commits rewrite the leaf with fresh symbolic values and may change the row count; change counter and schema cookie symbolic under the commit contract
 func VH_C08_history() {
 	f := sdb.VerifNewFile(512)
 	f.Pager.Copy = true
@@ -86,5 +86,27 @@ func VH_C08_history() {
 		swapped = append(swapped, [2]int64{r[1], r[0]})
 	}
 	sdb.VerifAssert(same(r4, swapped), "read after a schema change uses the new definition")
+
+	// VACUUM with a new page size: the whole file is rewritten with 1024-byte pages
+	g := sdb.VerifNewFile(1024)
+	groot := g.AddPage()
+	g.Master([]sdb.VerifMasterRow{{Typ: "table", Name: "t", Tbl: "t", Root: groot, SQL: "CREATE TABLE t (a, b)"}})
+	var ids []int64
+	var pls [][]byte
+	var v5 [][2]int64
+	for i := 0; i < 2; i++ {
+		a, b := sdb.VerifInt64(), sdb.VerifInt64()
+		v5 = append(v5, [2]int64{a, b})
+		ids = append(ids, int64(i+1))
+		pls = append(pls, sdb.VerifRecord(a, b))
+	}
+	g.TableLeaf(groot, ids, 1, pls)
+	c5, k5 := sdb.VerifUint32(), sdb.VerifUint32()
+	sdb.VerifAssume(c5 != c3 && k5 != k3)
+	g.SetCounters(c5, k5)
+	f.Pager.IDs, f.Pager.Bufs = g.Pager.IDs, g.Pager.Bufs // same handle, same pager: the file changed underneath
+	r5, err := vhSelectAB(db)
+	sdb.VerifNoErr(err, "read after a page-size changing VACUUM")
+	sdb.VerifAssert(same(r5, v5), "read after a page-size changing VACUUM uses the new page size")
 	sdb.VerifReach("end")
 }
